@@ -418,7 +418,10 @@ def prov_h_inherit(repo, tier="quick"):
         undec = None
         for element in ("H", "C"):
             for single in (True, False, MISSING):
-                def hook(ev, call, env, single=single):
+                def hook(ev, call, env, single=single, element=element):
+                    if isinstance(call.func, ast.Attribute) and call.func.attr == "get" and call.args and \
+                            isinstance(call.args[0], ast.Constant) and call.args[0].value == "element":
+                        return True, element
                     if isinstance(call.func, ast.Attribute) and call.func.attr == "get" and call.args and \
                             isinstance(call.args[0], ast.Constant) and call.args[0].value == "single_h_frag":
                         if single is MISSING:
@@ -427,6 +430,10 @@ def prov_h_inherit(repo, tier="quick"):
                     return False, None
                 val = True
                 for t, pol, gid in gs:
+                    # conditions that do not speak about the element or the stand-alone flag (e.g. "the hydrogen has no such
+                    # attribute yet") restrict which attribute is copied, not which atoms inherit
+                    if not any(isinstance(x, ast.Constant) and x.value in ("H", "single_h_frag") for x in ast.walk(t)):
+                        continue
                     env = {}
                     for sub in ast.walk(t):
                         if isinstance(sub, ast.Name) and sub.id in fl.locals:
